@@ -134,6 +134,13 @@ func serverCases() []refCase {
 		{name: "control: another certified encryption certificate and key for the same name under this signing identity", conformant: true, ident: func(id *gmref.Identity) {
 			id.Certs[1], id.EncKey = pk.Enc2.Certificate[0], enc2Key()
 		}},
+		{name: "certificate list [signing, encryption, attacker's self-signed certificate], ServerKeyExchange signed with the attacker's key", ident: func(id *gmref.Identity) {
+			id.Certs = append(id.Certs, pk.Attacker.Certificate[0])
+			id.SignKey = pk.OtherKey.D
+		}},
+		{name: "control: certificate list [signing, encryption, attacker's self-signed certificate] with the genuine keys", conformant: true, ident: func(id *gmref.Identity) {
+			id.Certs = append(id.Certs, pk.Attacker.Certificate[0])
+		}},
 		{name: "only the signing certificate", ident: func(id *gmref.Identity) { id.Certs = id.Certs[:1] }},
 		{name: "the signing certificate twice", ident: func(id *gmref.Identity) { id.Certs[1] = id.Certs[0]; id.EncKey = id.SignKey }},
 		{name: "encryption certificate first, signing certificate second", ident: func(id *gmref.Identity) {
@@ -242,6 +249,21 @@ func clientCases() []refCase {
 			return gmref.HS(gmref.HSCertVerify, b)
 		})},
 		{name: "empty CertificateVerify signature", mutate: replace("CertificateVerify", cv(func(p *gmref.Peer) []byte { return nil }))},
+		{name: "certificate list [victim's certificate, attacker's self-signed certificate], CertificateVerify by the attacker's key", ident: func(id *gmref.Identity) {
+			id.Certs = append(id.Certs, pk.Attacker.Certificate[0])
+			id.SignKey = pk.OtherKey.D
+		}},
+		{name: "certificate list [victim's certificate twice], CertificateVerify by the attacker's key", ident: func(id *gmref.Identity) {
+			id.Certs = append(id.Certs, id.Certs[0])
+			id.SignKey = pk.OtherKey.D
+		}},
+		{name: "certificate list [attacker's self-signed certificate, victim's certificate], CertificateVerify by the attacker's key", accept: verifying(false), ident: func(id *gmref.Identity) {
+			id.Certs = [][]byte{pk.Attacker.Certificate[0], id.Certs[0]}
+			id.SignKey = pk.OtherKey.D
+		}},
+		{name: "control: certificate list [victim's certificate, CA certificate] with the genuine key", conformant: true, accept: all(true), ident: func(id *gmref.Identity) {
+			id.Certs = append(id.Certs, pk.CA.Raw)
+		}},
 		{name: "certificate from an untrusted CA with its key and a valid proof", ident: func(id *gmref.Identity) { id.Certs[0] = pk.ClientUntrusted.Certificate[0] }, accept: verifying(false)},
 		{name: "expired certificate with its key and a valid proof", ident: func(id *gmref.Identity) { id.Certs[0] = pk.ClientExpired.Certificate[0] }, accept: verifying(false)},
 		{name: "certificate limited to server authentication with a valid proof", ident: func(id *gmref.Identity) { id.Certs[0] = pk.ClientServerEKU.Certificate[0] }, accept: verifying(false)},
